@@ -2,6 +2,13 @@
 open Egutil
 open Rawdata
 
+(* the harness target has a 64-bit usize: run the usize64 instance of the model *)
+let load = Rawdata.load usize64
+let store = Rawdata.store usize64
+let iter_list = Rawdata.iter_list usize64
+let iter_next = Rawdata.iter_next usize64
+let iter_nth = Rawdata.iter_nth usize64
+
 (* decimal parser without the 63-bit limit of OCaml ints (indices up to usize::MAX) *)
 let zbig_in (s : string) : BinNums.coq_Z =
   let ten = z_of_int 10 in
